@@ -55,6 +55,8 @@ def bestIn (m : Name) (es : Listing) : Option Name :=
 /-- `fn` is a candidate file name for module `m`. -/
 def IsCandidateName (m fn : Name) : Prop := fn = m ++ ".yang".toList ∨ (datedOf m fn).isSome
 
+instance (m fn : Name) : Decidable (IsCandidateName m fn) := by unfold IsCandidateName; infer_instance
+
 mutual
 /-- The directories at and below `node` (at path `p`, listings in name order), in the order in
 which a recursive entry considers them. -/
